@@ -72,7 +72,7 @@ prop('C20',
 
 
 prop('C08',
-     [CV.r08_a, CV.r08_b, CV.r08_c, CV.r08_d, CV.r08_e_parse_only, CV.t_agree, T.r19_b, T.r19_i, T.r19_f, RO.r07_e],
+     [CV.r08_a, CV.r08_b, CV.r08_c, CV.r08_d, CV.r08_e_parse_only, CV.t_agree, T.r19_b, T.r19_i, T.r19_f, RO.r07_e, ISO.r17_d],
      'Linear-resource (token conservation) analysis of reader.py: every token taken from the cursor and every value '
      'returned by a reader call is a resource; along every enumerated path (loops 0/1/2 times, callee result shapes '
      'per constant-argument context, to a fixpoint) each resource must be stored in the tree, returned, handed to a '
@@ -86,7 +86,7 @@ prop('C08',
      'character-for-character equality of output and input; alignment of the output against the input.')
 
 prop('C01',
-     [CV.r08_a_adjacent, CV.r08_b_wellformed, CV.r08_d, CV.r08_e_parse_only, CV.t_agree, CV.r01_a, RO.r11_c, RO.r11_e, L_SKIP, T.r19_b, T.r19_i, T.r19_c, T.r19_f, T.r19_e, PO.r13_c, PO.r13_e, PO.r13_g, PO.r13_i],
+     [CV.r08_a_adjacent, CV.r08_b_wellformed, CV.r08_d, CV.r08_e_parse_only, CV.t_agree, CV.r01_a, RO.r11_c, RO.r11_e, L_SKIP, T.r19_b, T.r19_i, T.r19_c, T.r19_f, T.r19_e, PO.r13_c, PO.r13_e, PO.r13_g, PO.r13_i, ISO.r17_d],
      'The conservation skeleton of C08 restricted to what a well-formed document reaches, plus raw capture of '
      'skipped-environment bodies and rollback completeness of the tokenizer (the spacer rule restores the cursor '
      'exactly when it emits nothing).',
@@ -97,7 +97,7 @@ prop('C01',
 
 
 prop('C10',
-     [T.r10_a, T.r10_b, S.r10_c, T.r19_a_precondition, AR.r18_i],
+     [T.r10_a, T.r10_b, S.r10_c, T.r19_a_precondition, T.r19_f_precondition, AR.r18_i],
      'Assertions on the tokenizer dispatch table (abstract interpretation, see C19) for the windows that start with '
      'a backslash or a percent sign, plus a rule on the set of token kinds the reader branches on.',
      'R10.a a backslash followed by %% or by another backslash is always consumed together with it by an earlier rule '
@@ -110,7 +110,7 @@ prop('C10',
      'environments (excluded by the precondition of C11).')
 
 prop('C12',
-     [T.r12_a, T.r12_f, S.r12_b, CV.t_agree, S.r12_c, S.r12_d, S.r12_e, L_MATH, T.r09_struct, T.r19_a_precondition, TR.r04_a, TR.r03_a, CV.r08_a_wellformed],
+     [T.r12_a, T.r12_f, S.r12_b, CV.t_agree, S.r12_c, S.r12_d, S.r12_e, L_MATH, T.r09_struct, T.r19_a_precondition, T.r19_f_precondition, TR.r04_a, TR.r03_a, TR.r03_b, CV.r08_a_wellformed],
      'Assertions on the tokenizer dispatch table for $ / $$ / backslash-bracket windows, agreement of the kind <-> '
      'class <-> delimiter tables with the tokenizer, def-use rules on the math-region reader and the dispatcher, and '
      'table rules for operators and sizing commands.',
@@ -178,7 +178,7 @@ prop('C13',
      'in the last line, CR handling).')
 
 prop('C14',
-     [TR.r14_a, TR.r14_b, AR.r18_d, TR.r03_c, CV.r08_e, AR.r18_e, TR.r04_b],
+     [TR.r14_a, TR.r14_b, AR.r18_d, TR.r03_c, CV.r08_e, AR.r18_e, TR.r04_b, TR.r15_b],
      'MRO-resolved def-use of the delimiters of named environments, write-through rules for the node setters, the '
      'slice type of argument lists, the live-name match predicate and the lossless-serialiser rule.',
      'R14.a \\begin/\\end of a named environment are computed from its current name and the serialiser reads them '
@@ -197,7 +197,7 @@ prop('C03',
      'exactness of result lists; match semantics of full-expression queries beyond the comparison performed.')
 
 prop('C04',
-     [TR.r04_a, TR.r04_b, TR.r04_c, TR.r04_d, TR.r03_a, TR.r15_d, T.r19_i, CV.r08_a],
+     [TR.r04_a, TR.r04_b, TR.r04_c, TR.r04_d, TR.r03_a, TR.r15_d, T.r19_i, T.r19_b, CV.r08_a],
      'Class-lattice evaluation of the view predicates and def-use rules on the node views.',
      'R04.a contents drops only whitespace-only text, children admits exactly the non-text expression classes, no '
      'view reorders; R04.b both containers are enumerated; R04.c every wrapper has its parent set before it is '
@@ -207,7 +207,7 @@ prop('C04',
      'is R08.a here and the full set under C01/C08); value-level equalities between views.')
 
 prop('C05',
-     [TR.r05_a, TR.r05_e, TR.r05_b, TR.r05_d, TR.r05_c, TR.r15_b, TR.r15_a, TR.r15_c],
+     [TR.r05_a, TR.r05_e, TR.r05_b, TR.r05_d, TR.r05_f, TR.r05_c, TR.r15_b, TR.r15_a, TR.r15_c, CV.r08_e],
      'Search-primitive classification and def-use rules on the edit methods: which primitive locates the target, '
      'which index the replacement uses, where the items of a multi-item insertion go.',
      'R05.a the target is located by identity (expressions compare equal by text, so an equality search edits an '
@@ -217,7 +217,7 @@ prop('C05',
      'the splice equation itself (the resulting text equals the original with the span substituted).')
 
 prop('C15',
-     [TR.r05_a, TR.r05_e, TR.r05_d, TR.r05_c, TR.r15_a, TR.r15_b, TR.r15_c, TR.r15_d, ISO.r17_g, AR.r18_a, AR.r18_f, AR.r18_g, AR.r18_e, AR.r18_i, CV.r08_e, TR.r04_b],
+     [TR.r05_a, TR.r05_e, TR.r05_d, TR.r05_f, TR.r05_c, TR.r15_a, TR.r15_b, TR.r15_c, TR.r15_d, ISO.r17_g, AR.r18_a, AR.r18_f, AR.r18_g, AR.r18_e, AR.r18_i, CV.r08_e, TR.r04_b],
      'Effect (frame) analysis of the mutators, a no-memoisation rule on the views, a kind-flow analysis of what can '
      'enter a content list through the public mutators, and totality of the text view over those kinds.',
      'R05.a/c targeted look-up by identity and ordered multi-insert; R15.a a mutator writes only its receiver\'s '
